@@ -80,7 +80,10 @@ func (c *Conn) CloseRead(ctx context.Context) context.Context {
 		defer c.close()
 		_, _, err := c.Reader(ctx)
 		if err == nil {
-			c.Close(StatusPolicyViolation, "unexpected data message")
+			// Not c.Close: it waits for this very goroutine to exit and would
+			// thus block for the whole goroutine wait timeout. The deferred
+			// c.close() above tears the connection down after the handshake.
+			c.closeHandshake(StatusPolicyViolation, "unexpected data message")
 		}
 	}()
 	return ctx
